@@ -197,8 +197,24 @@ fn check_bitfont(src: &FontSrc, ctx: &mut Ctx) {
             }
         }
     }
-    // embedded in files
     let other = make_font(&FontSrc::Synth(h as u8, 11)).unwrap();
+    // a slot is redefined within one session: F, then another font of the same height, then F again, then a font of another height
+    if !is_psf_magic(&raw) && !is_psf_magic(&other.convert_to_u8_data()) {
+        let third = make_font(&FontSrc::Synth(if h == 16 { 14 } else { 16 }, 5)).unwrap();
+        for slot in [0usize, 7] {
+            let mut t = Term::new(Emu::Ansi(0), 80, 25);
+            let mut ok = true;
+            for (name, f2) in [("dcs/first upload", &f), ("dcs/second upload to the same slot", &other), ("dcs/third upload to the same slot", &f), ("dcs/upload of another height to the same slot", &third)] {
+                ok &= t.feed_quiet(f2.encode_as_ansi(slot).as_bytes());
+                let got = t.buf.get_font(slot).cloned();
+                r.cmp(name, f2, got.as_ref());
+            }
+            if !ok {
+                r.fail("dcs", "parser-panic", "PANIC in the ANSI parser while loading fonts into one slot");
+            }
+        }
+    }
+    // embedded in files
     for (ext, two) in [("xb", false), ("xb", true), ("adf", false), ("idf", false), ("icy", false), ("icy", true)] {
         for compress in [false, true] {
             if compress && ext != "xb" {
